@@ -12,7 +12,7 @@ use query_engine::ExecutionContext;
 use serde_json::json;
 use std::sync::Arc;
 
-#[derive(Clone, Copy, PartialEq)]
+#[derive(Clone, Copy, PartialEq, Debug)]
 pub enum Layout {
     MemOne,
     MemSplit,
